@@ -9,10 +9,34 @@ _spec = importlib.util.spec_from_file_location("c02", os.path.join(os.path.dirna
 C02 = importlib.util.module_from_spec(_spec)
 _spec.loader.exec_module(C02)
 
+_spec9 = importlib.util.spec_from_file_location("c09", os.path.join(os.path.dirname(__file__), "C09.py"))
+C09 = importlib.util.module_from_spec(_spec9)
+_spec9.loader.exec_module(C09)
+
+
+def async_select_case(rng):
+    """the async layer's selections (Request::set_stream and Request::writeable, which selects the role's FINAL stream) on a Filter
+    request, in every order: selecting Data by hand and then awaiting writeable() re-selects the current stream and must keep it and
+    its data; writeable() from Stdin advances; reads in between"""
+    cg = C09.conngen if hasattr(C09, "conngen") else None
+    rid = rng.choice([1, 9])
+    recs = C09.minimal_preamble(rid, 3, flags=0, pairs=[])
+    contents = {C09.STDIN: [rng.randrange(256) for _ in range(rng.choice([0, 5, 40]))], C09.DATA: [rng.randrange(256) for _ in range(rng.choice([1, 35, 90]))]}
+    recs += C09.streams_part(rng, rid, 3, contents, junk_rate=0.2, no_begin=True)
+    pre = rng.choice([[], [("read", 4)], [("readall",)], [("fill", 3)]])
+    sel = rng.choice([[("set", C09.DATA), ("writeable",)], [("set", C09.DATA), ("writeable",), ("writeable",)], [("writeable",), ("set", C09.DATA)],
+                      [("writeable",)], [("set", C09.DATA), ("set", C09.DATA), ("writeable",)], [("set", C09.DATA), ("poll1", 8), ("writeable",)]])
+    post = rng.choice([[("readall",)], [("read", 1000), ("read", 1000)], [("fill", 10 ** 6), ("readall",)]])
+    h = pre + sel + post + [("ret", 0, 0)]
+    rs = C09.C07.io_script(rng, 200, "r")
+    ws = C09.C07.io_script(rng, 60, "w")
+    return C09.conn_case(rng.choice([64, 256, 8192]), 1, [(0, 0, C09.flat(recs))], [h], rs, ws, rng.choice([0, 1])), ["async-select"]
+
+
 RULE = ("cmp_streams: the full table 3 roles x requested {Stdin, Data} x current {none, Stdin, Data} observed through set_stream; str_run: "
         "histories of set_stream (forward, backward, outside the role, none, re-select) interleaved with parsing of record sequences that "
         "contain every stream type in every order (compliant and not), with matching and foreign request ids, for all roles. Oracle: acceptance "
-        "follows the role's order, rejected calls change nothing, delivered bytes always belong to the then-active stream. Non-trivial: a "
+        "follows the role's order (also for the async layer's Request::set_stream / Request::writeable on Filter requests, class async-select), rejected calls change nothing, delivered bytes always belong to the then-active stream. Non-trivial: a "
         "non-compliant order or a rejected selection; distinct = distinct case lines.")
 ASSUMPTIONS = ["requested selections are None, Stdin, Data: for the other nine record types release builds reject while debug builds hit a private "
                "debug_assert (recorded as an observation outside the property's table, not claimed either way)"]
@@ -20,6 +44,8 @@ ASSUMPTIONS = ["requested selections are None, Stdin, Data: for the other nine r
 
 def gen_cases(rng, tier):
     quick = tier == "quick"
+    for _ in range(60 if quick else 3000):
+        yield async_select_case(rng)
     for role in (1, 2, 3):
         for recv in (STDIN, DATA):
             for exp in (0, STDIN, DATA):
@@ -61,11 +87,11 @@ def gen_cases(rng, tier):
 
 
 def nontrivial(line, tags):
-    return "scrambled" in tags or "table" in tags
+    return "scrambled" in tags or "table" in tags or "async-select" in tags
 
 
 def min_classes(tier):
-    return {"table": 18, "scrambled": 200, "compliant": 200}
+    return {"table": 18, "scrambled": 200, "compliant": 200, "async-select": 50}
 
 
 TABLE = {}
@@ -86,6 +112,8 @@ for role in (1, 2, 3):
 
 
 def oracle(line, impl_line):
+    if line.startswith("conn_run "):
+        return C09.oracle(line, impl_line)       # class async-select: the read law + gate law of the async layer (selection via writeable())
     mode, a = parse_case(line)
     o = parse_out(impl_line)
     if o is None:
